@@ -1,5 +1,6 @@
 """C16 - MLLP: one framed request in, exactly one correctly routed reply out."""
 import socket
+import os
 import threading
 import time
 import itertools
@@ -42,8 +43,10 @@ _SRV = {}
 
 def server():
     """one server per process, started lazily"""
-    if 'srv' in _SRV:
+    if _SRV.get('pid') == os.getpid():
         return _SRV
+    _SRV.clear()        # a forked worker does not inherit the serving thread of its parent: it starts a server of its own
+    _SRV['pid'] = os.getpid()
     from hl7apy.mllp import MLLPServer, AbstractHandler, AbstractErrorHandler
     log = []
     lock = threading.Lock()
